@@ -4,7 +4,12 @@ Stage B: the order of local Galerkin evolutions (observed through the guarded ti
 with the Lean model Ptn.C09 (children before parents, root last), children taken in the order the run visited;
 the events of the same run that concern the gauge (centre moves with their QR mode, pulls, contract_all_children,
 split_node_replace with the QR kind behind it, the root's replace_tensor; `GaugeObserver`) are compared EXACTLY with
-the gauge machine Ptn.C09.Gauge (`C09 gauge`), and every new basis tensor is checked to be an isometry toward the parent.
+the gauge machine Ptn.C09.Gauge (`C09 gauge`), and every new basis tensor is checked to be an isometry toward the parent;
+the WHOLE new_state after every call that edits it (pull, contract_all_children, split_node_replace, the root's
+replace_tensor; snapshots of identifiers, parents, children LISTS, logical shapes of all nodes, basis-change nodes included)
+is compared EXACTLY with the states of the structural model of the step, Ptn.C09.Step on the C02 model (`C09 sstep`,
+`build_sstep` / `check_sstep`), together with the basis-change nodes pending in the gauge machine after every event.
+Observation points are optional: if one does not exist in the library version at hand the comparison is skipped and tallied.
 Stage C: (i) step-equality clause: for states whose bonds equal their Schmidt ranks the state after one step
 equals an independent dense reference of the BUG scheme (harness/bugref.py), both integrators, both copy
 strategies; (ii) other clauses on arbitrary (also redundant-bond) states over several steps and a truncation grid.
@@ -26,7 +31,8 @@ RULE = ("cases: random trees 2..6 nodes; 'equality' cases: states with bonds = S
         "TTNOs, caller states already canonical at the root / elsewhere, default configuration objects, Chebyshev / sparse "
         "modes, real / integer / single-precision tensors, magnitudes 1e-8..1e8 with tolerances relative to the data, "
         "physical dimension 1, prefix identifiers, read-only tensors, reset / setter histories, a second consecutive "
-        "fixed-rank step against the reference). "
+        "fixed-rank step against the reference). Every observed step (both integrators) is also replayed on the structural "
+        "model: all nodes of new_state (parent, children list, shape) after every event, exact. "
         "non-trivial = distinct (shape, integrator, copy strategy, seed) with >= 3 nodes or a two-node exactness case")
 PARTIAL = ["step-equality with the scheme is decided per input against the dense reference (no universal theorem). Proved "
            "around it: the update order (Tree.updates_perm, updates_nodup, root_last, Tree.child_before_parent, "
@@ -50,14 +56,21 @@ PARTIAL = ["step-equality with the scheme is decided per input against the dense
            "by an exact comparison of the observed sequence of centre moves (with QR mode), pulls, contract_all_children "
            "calls, local evolutions, split_node_replace calls (node, parent, augmented or not) and the final replace_tensor "
            "with the model's `gauge` answer; that every Q IS an isometry toward the parent is the QR contract, validated on "
-           "every live call. On the C02 structural model: bug_split_structure (split_node_replace literally), "
-           "bug_basis_up_structure, bug_step_structure_partial (runs in which every basis-change tensor is absorbed right "
-           "after its split; the literal delayed absorption has no run-level theorem), fixed_bug_keeps_shapes_partial (the "
-           "replacement itself keeps all leg dimensions when the QR keeps the rank; not propagated through the step), "
-           "rank_adaptive_bonds_le_partial (kept count <= max_bond_dim by Ptn.C10.trunc_is_prefix; that the bonds of the "
-           "returned state are these counts is oracle-only), bug_step_completes_partial (cache and gauge machines never "
-           "stuck; success of the structural edits is a hypothesis). Shapes, bonds <= maximum, completion of the real code: "
-           "decided per input",
+           "every live call. On the C02 structural model, in the ORDER OF THE CODE (Ptn.C09.Step: every gauge event with its "
+           "edit of new_state - replace_tensor, contract_all_children as the loop over the children list at call time, "
+           "split_node_replace, basis-change nodes of finished siblings PENDING while later siblings are edited): "
+           "bug_step_structure (every edit succeeds; afterwards the same root, exactly the same structure map - children "
+           "lists in the same order - and open axes; at EVERY intermediate state the basis-change nodes present are exactly "
+           "the gauge machine's pend), bug_step_completes (cache machine, gauge machine and structural edits all run "
+           "through), fixed_bug_keeps_shapes (fixed rank, with the KEEP-mode QR assert of the code as the only hypothesis: "
+           "every leg of every node has its old dimension after the whole step and at every intermediate state), "
+           "rank_adaptive_bonds_le (after the step and recursive_truncation every bond is between 1 and max_bond_dim, "
+           "through Ptn.C10.recursive_truncation_bonds_le; premise: the truncation pass of the C02 model returns - C10 has "
+           "no progress theorem for insert_identity; the canonical_form sweeps around the pass are not modelled). These "
+           "theorems are about the structural model; it is tied to the real classes by the exact comparison of ALL nodes "
+           "(parent, children list, logical shape) of new_state after every pull / absorb / basis / store event of real "
+           "steps with the model's `sstep` answer (ranks and pull permutations read off the run). Values, and that the "
+           "QR returns the rank it is asked for: decided per input",
            "QR / expm contracts"]
 ASSUMPTIONS = ["dense reference harness/bugref.py written from the scheme's definition, eigh-based propagators"]
 
@@ -201,10 +214,18 @@ def run(ctx):
             if mo.split(" | ")[0] != o["impl"]:
                 ctx.corr_fail(c, f"update order: impl=[{o['impl']}] model=[{mo}]")
         gp = [(c, o) for c, o in pend if o.get("gline")]
-        gouts = ctx.lean.batch([o["gline"] for _, o in gp]) if gp else []
-        for (c, o), mo in zip(gp, gouts):
+        glines = []
+        for _, o in gp:
+            glines.append(o["gline"])
+            if o.get("sstep"):
+                glines.append(o["sstep"]["line"])
+        gouts = iter(ctx.lean.batch(glines) if gp else [])
+        for c, o in gp:
             ctx.corr_cases += 1
-            check_gauge(ctx, c, o, mo)
+            check_gauge(ctx, c, o, next(gouts))
+            if o.get("sstep"):
+                ctx.corr_cases += 1
+                check_sstep(ctx, c, o, next(gouts))
     finally:
         rec.uninstall()
     # tie of the BUG environment machine (Ptn.C09.Env) to the code: every cache read of a BUG / FixedBUG step with the
@@ -226,7 +247,11 @@ def run_case(ctx, case):
             if mo.split(" | ")[0] != o["impl"]:
                 ctx.corr_fail(case, f"update order: impl=[{o['impl']}] model=[{mo}]")
             if o.get("gline"):
-                check_gauge(ctx, case, o, ctx.lean.batch([o["gline"]])[0])
+                lines = [o["gline"]] + ([o["sstep"]["line"]] if o.get("sstep") else [])
+                mouts = ctx.lean.batch(lines)
+                check_gauge(ctx, case, o, mouts[0])
+                if o.get("sstep"):
+                    check_sstep(ctx, case, o, mouts[1])
     finally:
         rec.uninstall()
 
@@ -366,101 +391,240 @@ class GaugeObserver:
     state, the QR that yields every new basis tensor (augmented or not) with the node it is stored at and the
     neighbour its R-leg points to (`split_node_replace`), and the final `replace_tensor` of the root.  Only calls made
     while `recursive_update` runs are recorded (the truncation pass uses some of the same methods).  The new basis
-    tensors are kept for the validation of the QR contract (isometry toward the parent)."""
+    tensors are kept for the validation of the QR contract (isometry toward the parent).
+
+    Every observation point is OPTIONAL: a name is wrapped only if it exists (class methods: a plain function reachable
+    on `TreeTensorNetwork`; module names: attributes of `common_bug`).  A missing point the comparison cannot do without
+    (`HARD_*`), a step that never enters `recursive_update`, or an exception inside the observation code itself makes
+    `skip_reason()` non-empty: the correspondence of that run is then skipped and tallied.  The observation code runs
+    inside `_quiet` and never raises into the step; the wrapped callable always gets exactly the caller's arguments, so
+    the step itself is the unobserved one and the oracle clauses are judged on it as usual.  The QR points are soft: if
+    one is missing the comparison still runs when every `split_node_replace` saw which QR produced its basis."""
 
     BC = "_basis_change_tensor"
+    HARD_CLS = ("move_orthogonalization_center", "contract_all_children", "split_node_replace", "replace_tensor")
+    HARD_MOD = ("pull_tensor_from_different_ttn",)
+    QR_MOD = ("tensor_qr_decomposition", "compute_fixed_size_new_basis_tensor", "compute_new_basis_tensor")
+    SOFT_MOD = QR_MOD + ("deepcopy",)
 
     def __init__(self, algo, cb):
         self.algo, self.cb = algo, cb
         self.events, self.bases = [], []
         self.active = False
+        self.activated = False
         self.in_pull = False
         self.qr_kind = None
+        self.missing = []           # observation points that do not exist in this version of the library
+        self.broken = None          # first exception raised by the observation code itself
+        # structure level (`C09 sstep`): the whole new_state after every call that edits it
+        self.snap0 = None           # algo.state right before the step (what root_update deep-copies)
+        self.snap0_copy = None      # the first deepcopy made inside root_update (= the initial new_state), if seen
+        self.snaps = []             # (kind, node identifier, snapshot of the TTN the call edited), after the call returned
+        self.pull_perms = {}        # node -> permutation the pull handed to replace_tensor
+        self._restore = []          # undo actions, in the order of installation
+
+    # ------------------------------------------------------------------ what can be compared
+    def skip_reason(self):
+        hard = [n for n in self.missing if n in self.HARD_CLS + self.HARD_MOD + ("recursive_update",)]
+        if hard:
+            return "observation point " + ", ".join(hard) + " missing"
+        if self.broken:
+            return "observation code failed (" + self.broken + ")"
+        if not self.activated:
+            return "recursive_update never called"
+        if any(e[0] == "basis" and e[5] is None for e in self.events) and any(n in self.missing for n in self.QR_MOD):
+            return "observation point " + ", ".join(n for n in self.missing if n in self.QR_MOD) + \
+                   " missing and a split_node_replace without an observed QR"
+        return None
+
+    def _quiet(self, fn, *a):
+        """Run observation code; its own exceptions never reach the step (the run is skipped instead)."""
+        try:
+            return fn(*a)
+        except Exception as e:      # noqa: BLE001
+            if self.broken is None:
+                self.broken = f"{getattr(fn, '__name__', 'observer')}: {type(e).__name__}: {str(e)[:120]}"
+            return None
+
+    @staticmethod
+    def _bound(orig, a, k):
+        import inspect
+        b = inspect.signature(orig).bind(*a, **k)
+        b.apply_defaults()
+        return b.arguments
+
+    def _wrap_cls(self, name, before=None, after=None):
+        """Wrap the method `name` of TreeTensorNetwork: `before(args)` may return a token handed to `after(args, token)`,
+        which runs only if the call returned."""
+        import inspect
+        T = self._T
+        orig = getattr(T, name, None)
+        if not inspect.isfunction(orig):
+            self.missing.append(name)
+            return
+        me = self
+        own = name in T.__dict__
+
+        def wrapper(*a, **k):
+            tok = None
+            args = None
+            if me.active:
+                args = me._quiet(me._bound, orig, a, k)
+                if args is not None and before is not None:
+                    tok = me._quiet(before, args)
+            res = orig(*a, **k)
+            if args is not None and after is not None and me.active:
+                me._quiet(after, args, tok)
+            return res
+        wrapper.__name__ = name
+        setattr(T, name, wrapper)
+        self._restore.append((lambda: setattr(T, name, orig)) if own else (lambda: delattr(T, name)))
+
+    def _wrap_mod(self, name, make):
+        cb = self.cb
+        if not hasattr(cb, name) or not callable(getattr(cb, name)):
+            self.missing.append(name)
+            return
+        orig = getattr(cb, name)
+        setattr(cb, name, make(orig))
+        self._restore.append(lambda: setattr(cb, name, orig))
 
     def __enter__(self):
+        try:
+            self._install()
+        except Exception as e:      # noqa: BLE001  (an installation that fails half-way is undone: the step runs unobserved)
+            self._uninstall()
+            if self.broken is None:
+                self.broken = f"install: {type(e).__name__}: {str(e)[:120]}"
+        return self
+
+    def _install(self):
         from pytreenet.core.ttn import TreeTensorNetwork as T
         from pytreenet.util.tensor_splitting import SplitMode
-        cb, me = self.cb, self
+        me = self
         self._T = T
-        self._saved_cls = {n: T.__dict__[n] for n in ("move_orthogonalization_center", "contract_all_children",
-                                                     "split_node_replace", "replace_tensor")}
-        self._saved_mod = {n: getattr(cb, n) for n in ("pull_tensor_from_different_ttn", "tensor_qr_decomposition",
-                                                      "compute_fixed_size_new_basis_tensor",
-                                                      "compute_new_basis_tensor")}
-        sc, sm = self._saved_cls, self._saved_mod
 
-        def move(self_, new_center_id, mode=SplitMode.REDUCED):
-            if me.active:
-                me.events.append(("down", self_.orthogonality_center_id, new_center_id, mode == SplitMode.KEEP))
-            return sc["move_orthogonalization_center"](self_, new_center_id, mode=mode)
+        def b_move(args):
+            me.events.append(("down", args["self"].orthogonality_center_id, args["new_center_id"],
+                              args["mode"] == SplitMode.KEEP))
 
-        def cac(self_, node_id, new_identifier=None):
-            if me.active:
-                me.events.append(("absorb", node_id, tuple(self_.nodes[node_id].children)))
-            return sc["contract_all_children"](self_, node_id, new_identifier=new_identifier)
+        def b_cac(args):
+            me.events.append(("absorb", args["node_id"], tuple(args["self"].nodes[args["node_id"]].children)))
 
-        def snr(self_, node_id, tensor_a, tensor_b, identifier_a, identifier_b, legs_a, legs_b):
-            if me.active:
-                me.events.append(("basis", node_id, identifier_a, identifier_b, legs_a.parent_leg, me.qr_kind))
-                me.bases.append((node_id, tensor_b, me.qr_kind))
-                me.qr_kind = None
-            return sc["split_node_replace"](self_, node_id, tensor_a, tensor_b, identifier_a, identifier_b,
-                                            legs_a, legs_b)
+        def a_cac(args, _):
+            me.snaps.append(("absorb", args["node_id"], struct_snapshot(args["self"])))
 
-        def rt(self_, node_id, new_tensor, permutation=None):
-            if me.active and not me.in_pull:
-                me.events.append(("store", node_id))
-            return sc["replace_tensor"](self_, node_id, new_tensor, permutation)
+        def b_snr(args):
+            me.events.append(("basis", args["node_id"], args["identifier_a"], args["identifier_b"],
+                              args["legs_a"].parent_leg, me.qr_kind))
+            me.bases.append((args["node_id"], args["tensor_b"], me.qr_kind))
+            me.qr_kind = None
 
-        def pull(old_ttn, new_ttn, node_id, mod_fct=None):
-            if me.active:
-                me.events.append(("pull", node_id))
-            me.in_pull = True
+        def a_snr(args, _):
+            me.snaps.append(("basis", args["node_id"], struct_snapshot(args["self"])))
+
+        def b_rt(args):
+            if me.in_pull:
+                perm = args["permutation"]
+                me.pull_perms[args["node_id"]] = None if perm is None else [int(x) for x in perm]
+                return False
+            me.events.append(("store", args["node_id"]))
+            return True
+
+        def a_rt(args, store):
+            if store:
+                me.snaps.append(("store", args["node_id"], struct_snapshot(args["self"])))
+
+        self._wrap_cls("move_orthogonalization_center", b_move)
+        self._wrap_cls("contract_all_children", b_cac, a_cac)
+        self._wrap_cls("split_node_replace", b_snr, a_snr)
+        self._wrap_cls("replace_tensor", b_rt, a_rt)
+
+        def mk_pull(orig):
+            def pull(*a, **k):
+                act = me.active
+                args = me._quiet(me._bound, orig, a, k) if act else None
+                if args is not None:
+                    me._quiet(lambda: me.events.append(("pull", args["node_id"])))
+                me.in_pull = True
+                try:
+                    res = orig(*a, **k)
+                finally:
+                    me.in_pull = False
+                if args is not None:
+                    me._quiet(lambda: me.snaps.append(("pull", args["node_id"], struct_snapshot(args["new_ttn"]))))
+                return res
+            return pull
+
+        def mk_leaf_qr(orig):
+            def leaf_qr(*a, **k):
+                def note():
+                    me.qr_kind = "keep" if me._bound(orig, a, k)["mode"] == SplitMode.KEEP else "aug"
+                me._quiet(note)
+                return orig(*a, **k)
+            return leaf_qr
+
+        def mk_fixed(orig):
+            def fixed_basis(*a, **k):
+                me.qr_kind = "keep"
+                return orig(*a, **k)
+            return fixed_basis
+
+        def mk_aug(orig):
+            def aug_basis(*a, **k):
+                me.qr_kind = "aug"
+                return orig(*a, **k)
+            return aug_basis
+
+        def mk_dcopy(orig):
+            def dcopy(*a, **k):
+                # `new_state = deepcopy(current_state)` is the first deep copy `root_update` makes
+                res = orig(*a, **k)
+                if me.active and me.snap0_copy is None and isinstance(res, T):
+                    def note():
+                        me.snap0_copy = struct_snapshot(res)
+                    me._quiet(note)
+                return res
+            return dcopy
+
+        self._wrap_mod("pull_tensor_from_different_ttn", mk_pull)
+        self._wrap_mod("tensor_qr_decomposition", mk_leaf_qr)
+        self._wrap_mod("compute_fixed_size_new_basis_tensor", mk_fixed)
+        self._wrap_mod("compute_new_basis_tensor", mk_aug)
+        self._wrap_mod("deepcopy", mk_dcopy)
+        orig_update = getattr(self.algo, "recursive_update", None)
+        if not callable(orig_update):
+            self.missing.append("recursive_update")
+            return
+
+        def rec_update(*a, **k):
+            def note():
+                me.snap0 = struct_snapshot(me.algo.state)
+            me._quiet(note)
+            me.active = me.activated = True
             try:
-                return sm["pull_tensor_from_different_ttn"](old_ttn, new_ttn, node_id, mod_fct)
-            finally:
-                me.in_pull = False
-
-        def leaf_qr(tensor, q_legs, r_legs, mode=SplitMode.REDUCED):
-            me.qr_kind = "keep" if mode == SplitMode.KEEP else "aug"
-            return sm["tensor_qr_decomposition"](tensor, q_legs, r_legs, mode=mode)
-
-        def fixed_basis(node, updated_tensor):
-            me.qr_kind = "keep"
-            return sm["compute_fixed_size_new_basis_tensor"](node, updated_tensor)
-
-        def aug_basis(node, old_tensor, updated_tensor):
-            me.qr_kind = "aug"
-            return sm["compute_new_basis_tensor"](node, old_tensor, updated_tensor)
-
-        T.move_orthogonalization_center = move
-        T.contract_all_children = cac
-        T.split_node_replace = snr
-        T.replace_tensor = rt
-        cb.pull_tensor_from_different_ttn = pull
-        cb.tensor_qr_decomposition = leaf_qr
-        cb.compute_fixed_size_new_basis_tensor = fixed_basis
-        cb.compute_new_basis_tensor = aug_basis
-        orig_update = self.algo.recursive_update
-
-        def rec_update():
-            me.active = True
-            try:
-                return orig_update()
+                return orig_update(*a, **k)
             finally:
                 me.active = False
         self.algo.recursive_update = rec_update
-        return self
+
+        def undo():
+            try:
+                del self.algo.recursive_update
+            except AttributeError:
+                pass
+        self._restore.append(undo)
+
+    def _uninstall(self):
+        while self._restore:
+            undo = self._restore.pop()
+            try:
+                undo()
+            except Exception:       # noqa: BLE001
+                pass
 
     def __exit__(self, *exc):
-        for n, f in self._saved_cls.items():
-            setattr(self._T, n, f)
-        for n, f in self._saved_mod.items():
-            setattr(self.cb, n, f)
-        try:
-            del self.algo.recursive_update
-        except AttributeError:
-            pass
+        self._uninstall()
         return False
 
     def render(self, inv):
@@ -489,6 +653,209 @@ class GaugeObserver:
             elif e[0] == "store":
                 out.append(f"store {inv[e[1]]}")
         return " ; ".join(out), None
+
+
+def struct_snapshot(ttn):
+    """Structure and shapes of ALL nodes of a TTN, read without touching a tensor: `Node.shape` is the recorded shape seen
+    through the node's leg permutation (a property without side effect), the tensor keys are read through the mapping's
+    key view (no `__getitem__`, which would transpose and re-store)."""
+    return {"root": ttn.root_id, "T": sorted(ttn.tensors.keys()),
+            "nodes": {nid: (nd.parent, tuple(nd.children), None if nd.shape is None else tuple(int(d) for d in nd.shape))
+                      for nid, nd in ttn.nodes.items()}}
+
+
+BC_OFFSET = 1000        # model number of `<c>_basis_change_tensor` = BC_OFFSET + number of c
+
+
+def _snap_numbers(snap, inv):
+    """A snapshot in model numbers (`None` + reason if it contains an identifier that is neither a node of the tree nor
+    the basis-change node of one)."""
+    bc = GaugeObserver.BC
+
+    def num(x):
+        if x is None:
+            return None
+        if x in inv:
+            return inv[x]
+        if x.endswith(bc) and x[:-len(bc)] in inv:
+            return BC_OFFSET + inv[x[:-len(bc)]]
+        raise KeyError(x)
+    try:
+        return {"root": num(snap["root"]), "T": sorted(num(x) for x in snap["T"]),
+                "nodes": {num(nid): (num(p), tuple(num(c) for c in ch), shp)
+                          for nid, (p, ch, shp) in snap["nodes"].items()}}, None
+    except KeyError as e:
+        return None, f"identifier {e.args[0]!r} in new_state is neither a node nor a basis-change node"
+
+
+def build_sstep(gobs, inv, tree_toks, fixed):
+    """The `C09 sstep` request of an observed step and what the answer is compared with.  Building ops: the initial
+    new_state in pre-order, every node's tensor given in its logical leg order (parent, children in the order of the
+    children LIST, open legs), so that every `child:` op attaches leg 0 to the leg of the parent that already is in place.
+    Labels are arbitrary (never compared): bond above node x = 2000 + x, k-th open leg of x = 100000 + 100 x + k."""
+    if gobs.snap0 is None:
+        return None, "no snapshot of the state before the step"
+    if gobs.snap0_copy is not None and gobs.snap0_copy != gobs.snap0:
+        return None, "the initial new_state (first deepcopy inside root_update) differs from algo.state before the step"
+    s0, why = _snap_numbers(gobs.snap0, inv)
+    if s0 is None:
+        return None, why
+    if sorted(s0["nodes"]) != sorted(inv.values()) or s0["root"] is None:
+        return None, f"initial new_state has the nodes {sorted(s0['nodes'])}, root {s0['root']}"
+    snaps = []
+    for kind, nid, snap in gobs.snaps:
+        sn, why = _snap_numbers(snap, inv)
+        if sn is None or nid not in inv:
+            return None, why or f"{kind} on the unknown node {nid}"
+        snaps.append((kind, inv[nid], sn))
+    ops = []
+
+    def axes(x):
+        par, ch, shp = s0["nodes"][x]
+        nv = (0 if par is None else 1) + len(ch)
+        labs = ([] if par is None else [2000 + x]) + [2000 + c for c in ch] + \
+            [100000 + 100 * x + k for k in range(len(shp) - nv)]
+        return ",".join(f"{l}.{d}" for l, d in zip(labs, shp)) if shp else "-"
+
+    def walk(x):
+        par, ch, shp = s0["nodes"][x]
+        if shp is None or len(shp) < (0 if par is None else 1) + len(ch):
+            raise ValueError(f"node {x} has the recorded shape {shp}")
+        if par is None:
+            ops.append(f"root:{x}:{axes(x)}")
+        else:
+            pp, pch, _ = s0["nodes"][par]
+            ops.append(f"child:{x}:{axes(x)}:0:{par}:{(0 if pp is None else 1) + pch.index(x)}")
+        for c in ch:
+            walk(c)
+    try:
+        walk(s0["root"])
+    except (ValueError, KeyError) as e:
+        return None, f"initial new_state cannot be mirrored: {e}"
+    pars = []
+    for x in sorted(s0["nodes"]):
+        if x == s0["root"]:
+            continue
+        split = [sn for kind, c, sn in snaps if kind == "basis" and c == x]
+        if len(split) != 1 or x not in split[0]["nodes"] or not split[0]["nodes"][x][2]:
+            return None, f"{len(split)} split_node_replace calls observed for node {x}"
+        # the new rank: dimension of the bond between <x>_basis_change_tensor and x = parent leg (leg 0) of x after the split
+        pars += [f"b:{x}={BC_OFFSET + x}", f"d:{x}={split[0]['nodes'][x][2][0]}"]
+    for nid, perm in gobs.pull_perms.items():
+        if perm is not None and nid in inv:
+            pars.append(f"p:{inv[nid]}=" + (",".join(str(q) for q in perm) if perm else "-"))
+    line = f"C09 sstep {int(fixed)} " + " ".join(tree_toks) + " / " + " ".join(ops) + " / " + " ".join(pars)
+    restored = {x: snaps[-1][2]["nodes"].get(x, (None, None))[1] == v[1] for x, v in s0["nodes"].items()} if snaps else {}
+    return {"line": line, "snap0": s0, "snaps": snaps, "fixed": bool(fixed),
+            "restored": bool(restored) and all(restored.values())}, None
+
+
+def parse_show_ttn(txt):
+    """`Ptn.C02.showTTN` -> the form of `_snap_numbers` (the open-label column is dropped: labels are not observable)."""
+    fields = txt.split(";")
+
+    def lst(t):
+        return () if t == "-" else tuple(int(x) for x in t.split(","))
+    if len(fields) < 2 or not fields[0].startswith("root=") or not fields[1].startswith("T="):
+        raise ValueError(txt)
+    r = fields[0][5:]
+    out = {"root": None if r == "-" else int(r), "T": sorted(lst(fields[1][2:])), "nodes": {}}
+    for f in fields[2:]:
+        parts = f.split(":")
+        if len(parts) != 5:
+            raise ValueError(f)
+        out["nodes"][int(parts[0])] = (None if parts[1] == "-" else int(parts[1]), lst(parts[2]), lst(parts[4]))
+    return out
+
+
+def _state_diff(model, real):
+    if model["root"] != real["root"]:
+        return f"root model {model['root']} real {real['root']}"
+    if model["T"] != real["T"]:
+        return f"tensor keys model {model['T']} real {real['T']}"
+    if sorted(model["nodes"]) != sorted(real["nodes"]):
+        return f"nodes model {sorted(model['nodes'])} real {sorted(real['nodes'])}"
+    for x in sorted(model["nodes"]):
+        if model["nodes"][x] != real["nodes"][x]:
+            return f"node {x} (parent, children, shape): model {model['nodes'][x]} real {real['nodes'][x]}"
+    return None
+
+
+def check_sstep(ctx, case, o, ans):
+    """Stage B for the structural model of the step (`Ptn.C09.Step` on the C02 model): after every pull / absorb / basis /
+    store the model's state equals the snapshot of the real new_state taken after the corresponding call - identifiers,
+    parents, children LISTS (order included), logical shapes, tensor keys, root, of ALL nodes, exactly; `down` / `evolve`
+    leave the rendered state unchanged; the basis-change nodes pending in the gauge machine after every event are
+    exactly those present in the real new_state (with their parents); no `err` / `stuck`."""
+    so = o["sstep"]
+    if ans == "bad-op":
+        ctx.corr_fail(case, f"structural step model answered bad-op for {so['line']}")
+        return
+    fields = ans.split(" | ")
+    cur, prev_txt, k, compared = so["snap0"], None, 0, 0
+    for i, f in enumerate(fields):
+        try:
+            ev, rest = f.split(" => ", 1)
+            txt, pend = rest.split(" # pend ", 1)
+            pend = pend.strip()
+            evk = ev.split(" ")[0]
+        except ValueError:
+            ctx.corr_fail(case, f"structural step model: malformed field [{f}]")
+            return
+        if txt == "err" or pend == "stuck":
+            ctx.corr_fail(case, f"structural step model: after [{ev}] the state is [{txt[:40]}], pend [{pend}] "
+                                f"(request {so['line']})")
+            return
+        if (i == 0) != (evk == "start"):
+            ctx.corr_fail(case, f"structural step model: field {i} is [{ev}]")
+            return
+        if evk in ("start", "pull", "absorb", "basis", "store"):
+            if evk != "start":
+                if k >= len(so["snaps"]):
+                    ctx.corr_fail(case, f"structural step: the model edits new_state at [{ev}], the real step made only "
+                                        f"{len(so['snaps'])} edits")
+                    return
+                rk, rn, cur = so["snaps"][k]
+                k += 1
+                if rk != evk or str(rn) != ev.split(" ")[1].split(">")[0]:
+                    ctx.corr_fail(case, f"structural step: model event [{ev}] against the real edit {rk} {rn}")
+                    return
+            try:
+                diff = _state_diff(parse_show_ttn(txt), cur)
+            except ValueError as e:
+                ctx.corr_fail(case, f"structural step model: unreadable state after [{ev}]: {e}")
+                return
+            if diff:
+                ctx.corr_fail(case, f"structural step: new_state after [{ev}] (event {i}): {diff}")
+                return
+            compared += 1
+        elif evk in ("down", "evolve"):
+            if txt != prev_txt:
+                ctx.corr_fail(case, f"structural step model: [{ev}] changed the rendered state")
+                return
+            ctx.tally("struct", "states unchanged by down / evolve")
+        else:
+            ctx.corr_fail(case, f"structural step model: unknown event [{ev}]")
+            return
+        want = sorted((x - BC_OFFSET, v[0]) for x, v in cur["nodes"].items() if x >= BC_OFFSET)
+        try:
+            got = sorted(tuple(int(z) for z in e.split(">")) for e in pend.split(",")) if pend != "-" else []
+        except ValueError:
+            got = None
+        if got != want:
+            ctx.corr_fail(case, f"structural step: pending basis-change nodes after [{ev}]: gauge machine {pend}, "
+                                f"real new_state {want}")
+            return
+        prev_txt = txt
+    if k != len(so["snaps"]):
+        ctx.corr_fail(case, f"structural step: the real step made {len(so['snaps'])} edits of new_state, the model {k}")
+        return
+    for _ in range(compared):
+        ctx.tally("struct", "struct_states")
+    ctx.notes["struct_states"] = ctx.notes.get("struct_states", 0) + compared
+    ctx.tally("struct", "runs compared (all states equal)")
+    ctx.tally("struct_runs", ("fixed-rank" if so["fixed"] else "rank-adaptive") + f", {len(so['snap0']['nodes'])} nodes")
+    ctx.tally("struct_children_lists_after_step", "equal to before" if so["restored"] else "order changed")
 
 
 def canon_gauge_answer(ans):
@@ -623,6 +990,7 @@ def _run_one(ctx, case, rec):
         try:
             seen = _observed_order(algo, kind, order, lambda: _step(algo, kind, truncate=False))
         except Exception as e:          # noqa: BLE001
+            ctx.tally("struct", "skipped: step raised")
             fail(f"{kind}: step raised {type(e).__name__}: {str(e)[:200]}", e)
             return None
         v1 = dense.ttns_vector(algo.state, order)
@@ -674,6 +1042,8 @@ def _run_one(ctx, case, rec):
                     else:
                         _step(algo, kind)
             except Exception as e:      # noqa: BLE001
+                if step == 0:
+                    ctx.tally("struct", "skipped: step raised")
                 fail(f"{kind}: step {step} did not complete: {type(e).__name__}: {str(e)[:200]}", e)
                 return None
             if kind == "bug" and svd_used:
@@ -743,7 +1113,13 @@ def _run_one(ctx, case, rec):
     out = {"line": "C09 order " + " ".join(toks), "impl": " ".join(str(inv[s]) for s in seen)}
     # the gauge machine: the same run seen as centre moves / pulls / absorptions / QR events
     gobs = getattr(_observed_order, "gauge", None)
-    if gobs is not None and gobs.events:
+    skip = gobs.skip_reason() if gobs is not None else None
+    if skip:
+        # an observation point does not exist in this version of the library (or the observation code failed): no
+        # comparison for this run - never an alarm; the step itself ran undisturbed and was judged above
+        ctx.tally("gauge_observer", "skipped: " + skip)
+        ctx.tally("struct", "skipped: " + skip)
+    elif gobs is not None and gobs.events:
         gimpl, why = gobs.render(inv)
         if gimpl is None:
             ctx.oracle_fail(case, f"{kind}: {why}")
@@ -766,6 +1142,12 @@ def _run_one(ctx, case, rec):
         out["gparents"] = [(int(t.split(":")[0]), None if t.split(":")[1] == "-" else int(t.split(":")[1]))
                            for t in toks]
         out["groot"] = inv[ttns.root_id]
+        # the structural model of the same step: all of new_state after every edit
+        so, why = build_sstep(gobs, inv, toks, kind == "fixedbug")
+        if so is None:
+            ctx.corr_fail(case, f"{kind}: structural observation of the step unusable: {why}")
+        else:
+            out["sstep"] = so
     return out
 
 
